@@ -20,44 +20,92 @@ theorem next_last_disjoint :
   decide +kernel
 
 /-! ### the words the EXTRACTORS accept as "last" (the resource's PreviousPrefixRegex, held by the date parser
-configuration as `_past_prefix_regex`) must be "last" for the date-period parser too -/
+configuration as `_past_prefix_regex`) must be "last" for the date-period parser too
 
-/-- (culture, PreviousPrefixRegex of the resource, get_swift_day_or_month, get_swift_year) -/
-def extractorLast : List (String × RTV.Re.RE × Method × Method) := [
-  ("english", English.re_DateParser__past_prefix_regex, English.DatePeriodParser_get_swift_day_or_month, English.DatePeriodParser_get_swift_year),
-  ("spanish", Spanish.re_DateParser__past_prefix_regex, Spanish.DatePeriodParser_get_swift_day_or_month, Spanish.DatePeriodParser_get_swift_year),
-  ("portuguese", Portuguese.re_DateParser__past_prefix_regex, Portuguese.DatePeriodParser_get_swift_day_or_month, Portuguese.DatePeriodParser_get_swift_year),
-  ("dutch", Dutch.re_DateParser__past_prefix_regex, Dutch.DatePeriodParser_get_swift_day_or_month, Dutch.DatePeriodParser_get_swift_year)]
+German and Italian violated this (defect `last-as-this-de-de-*` / `last-as-this-it-it-*`: their date-period configuration
+was built from `PastPrefixRegex`).  The translator regenerates, per culture, `pastPrefixFollowsPrevious` (does the
+date-period configuration hold the PreviousPrefixRegex?); the full-strength statement is about the REGENERATED definitions
+of every culture that follows the repaired variant, the negative theorems are about the committed PRE-FIX variant (the
+regenerated method with the pre-fix regex, copied below by hand, put back) — so both trees check. -/
 
-/- full statement: for all six cultures.  German and Italian violate it (next two theorems): `…_partial` for the four
-   cultures where it holds. -/
-theorem extractor_last_words_swift_minus_one_partial :
-    ∀ p ∈ extractorLast, ∀ w ∈ wordsOf T p.2.1, p.2.2.1.on T w = int (-1) ∧ p.2.2.2.on T w = int (-1) := by
+/-- (culture, regenerated flag, PreviousPrefixRegex of the resource, get_swift_day_or_month, get_swift_year) -/
+def extractorLast : List (String × Bool × RTV.Re.RE × Method × Method) := [
+  ("english", English.pastPrefixFollowsPrevious, English.re_DateParser__past_prefix_regex, English.DatePeriodParser_get_swift_day_or_month, English.DatePeriodParser_get_swift_year),
+  ("spanish", Spanish.pastPrefixFollowsPrevious, Spanish.re_DateParser__past_prefix_regex, Spanish.DatePeriodParser_get_swift_day_or_month, Spanish.DatePeriodParser_get_swift_year),
+  ("portuguese", Portuguese.pastPrefixFollowsPrevious, Portuguese.re_DateParser__past_prefix_regex, Portuguese.DatePeriodParser_get_swift_day_or_month, Portuguese.DatePeriodParser_get_swift_year),
+  ("italian", Italian.pastPrefixFollowsPrevious, Italian.re_DateParser__past_prefix_regex, Italian.DatePeriodParser_get_swift_day_or_month, Italian.DatePeriodParser_get_swift_year),
+  ("german", German.pastPrefixFollowsPrevious, German.re_DateParser__past_prefix_regex, German.DatePeriodParser_get_swift_day_or_month, German.DatePeriodParser_get_swift_year),
+  ("dutch", Dutch.pastPrefixFollowsPrevious, Dutch.re_DateParser__past_prefix_regex, Dutch.DatePeriodParser_get_swift_day_or_month, Dutch.DatePeriodParser_get_swift_year)]
+
+/-- **full strength** for every culture whose tree holds the PreviousPrefixRegex in its date-period configuration: every
+last-word the extractors accept is −1 / −1 for the date-period parser -/
+theorem extractor_last_words_swift_minus_one :
+    ∀ p ∈ extractorLast, p.2.1 = true →
+      ∀ w ∈ wordsOf T p.2.2.1, p.2.2.2.1.on T w = int (-1) ∧ p.2.2.2.2.on T w = int (-1) := by
   decide +kernel
 
-/-- **negative, German** (recorded defect `last-as-this-de-de-*`): GermanDatePeriodParserConfiguration builds its
-`previous_prefix_regex` from `GermanDateTime.PastPrefixRegex` (`.^`, matches nothing) instead of `PreviousPrefixRegex`:
-NO German last-word (`letzte`, `letztes`, `vergangene`, `vorige`, …) is a "previous" prefix: shift 0, year sentinel −10;
-`letztes jahr` resolves to the current year. -/
+/-- English, Spanish, Portuguese and Dutch follow it on every tree (so the statement above is never vacuous for them) -/
+theorem extractor_last_flags :
+    [English.pastPrefixFollowsPrevious, Spanish.pastPrefixFollowsPrevious, Portuguese.pastPrefixFollowsPrevious,
+     Dutch.pastPrefixFollowsPrevious] = [true, true, true, true] := by decide +kernel
+
+/-! #### pre-fix regression (committed snapshot of the two regexes the unrepaired configurations held) -/
+
+/-- `GermanDateTime.PastPrefixRegex` = `.^` -/
+def preFixGermanPrev : RTV.Re.RE := .seq (.cls [] true) (.seq .bol .eps)
+
+/-- `ItalianDateTime.PastPrefixRegex` = `\b(((lo|l[ae]|gli)\s+)?scors[oaei])\b` (IGNORECASE expanded) -/
+def preFixItalianPrev : RTV.Re.RE :=
+  .seq .wordB (.seq (.grp 1 (.seq (.rep (.seq (.grp 2 (.seq (.grp 3 (.seq (.alt (.seq (.cls [.range 76 76,
+    .range 108 108] false) (.seq (.cls [.range 79 79, .range 111 111] false) .eps)) (.alt (.seq (.cls [.range
+    76 76, .range 108 108] false) (.seq (.cls [.range 65 65, .range 97 97, .range 69 69, .range 101 101]
+    false) .eps)) (.seq (.cls [.range 71 71, .range 103 103] false) (.seq (.cls [.range 76 76, .range 108
+    108] false) (.seq (.cls [.range 73 73, .range 105 105, .range 304 304] false) .eps))))) .eps)) (.seq
+    (.repU (.seq (.cls [.space] false) .eps) 1 true) .eps))) .eps) 0 1 true) (.seq (.cls [.range 83 83,
+    .range 115 115, .range 383 383] false) (.seq (.cls [.range 67 67, .range 99 99] false) (.seq (.cls
+    [.range 79 79, .range 111 111] false) (.seq (.cls [.range 82 82, .range 114 114] false) (.seq (.cls
+    [.range 83 83, .range 115 115, .range 383 383] false) (.seq (.cls [.range 79 79, .range 111 111, .range
+    65 65, .range 97 97, .range 69 69, .range 101 101, .range 73 73, .range 105 105, .range 304 304] false)
+    .eps)))))))) (.seq .wordB .eps))
+
+def germanDomPreFix : Method :=
+  German.DatePeriodParser_get_swift_day_or_month.withRe German.re_DatePeriodParser_previous_prefix_regex preFixGermanPrev
+def germanYearPreFix : Method :=
+  German.DatePeriodParser_get_swift_year.withRe German.re_DatePeriodParser_previous_prefix_regex preFixGermanPrev
+def italianDomPreFix : Method :=
+  Italian.DatePeriodParser_get_swift_day_or_month.withRe Italian.re_DatePeriodParser_previous_prefix_regex preFixItalianPrev
+def italianYearPreFix : Method :=
+  Italian.DatePeriodParser_get_swift_year.withRe Italian.re_DatePeriodParser_previous_prefix_regex preFixItalianPrev
+
+/-- the snapshot IS what an unrepaired tree holds: when the regenerated flag says "does not follow", the regenerated
+regex is the committed pre-fix one (so the pre-fix variants below are the tree's own methods) -/
+theorem prefix_snapshot_is_the_unrepaired_tree :
+    (German.pastPrefixFollowsPrevious = false → German.re_DatePeriodParser_previous_prefix_regex = preFixGermanPrev) ∧
+    (Italian.pastPrefixFollowsPrevious = false → Italian.re_DatePeriodParser_previous_prefix_regex = preFixItalianPrev) := by
+  decide +kernel
+
+/-- **pre-fix regression, German** (`last-as-this-de-de-*`): with `PastPrefixRegex` (`.^`, matches nothing) as the
+previous-prefix regex NO German last-word (`letzte`, `letztes`, `vergangene`, `vorige`, …) is a "previous" prefix: shift 0,
+year sentinel −10; `letztes jahr` resolves to the current year. -/
 theorem german_last_words_not_previous :
     (wordsOf T German.re_DateParser__past_prefix_regex).length = 18 ∧
     ∀ w ∈ wordsOf T German.re_DateParser__past_prefix_regex,
-      German.DatePeriodParser_get_swift_day_or_month.on T w = int 0 ∧ German.DatePeriodParser_get_swift_year.on T w = int (-10) := by
+      germanDomPreFix.on T w = int 0 ∧ germanYearPreFix.on T w = int (-10) := by
   decide +kernel
 
-/-- **negative, Italian** (recorded defect `last-as-this-it-it-*`): ItalianDatePeriodParserConfiguration uses
-`ItalianDateTime.PastPrefixRegex` (only `scors[oaei]`): `ultim*`, `passat*`, `precedent*` of the PreviousPrefixRegex are not
-"previous": partial statement (the instances the narrower regex searches) + witness. -/
+/-- **pre-fix regression, Italian** (`last-as-this-it-it-*`): with `PastPrefixRegex` (only `scors[oaei]`) `ultim*`, `passat*`,
+`precedent*` of the PreviousPrefixRegex are not "previous": partial statement (the instances the narrower regex
+searches) + witness. -/
 theorem italian_last_words_partial :
     ∀ w ∈ wordsOf T Italian.re_DateParser__past_prefix_regex,
-      searchRe T Italian.re_DatePeriodParser_previous_prefix_regex w = true →
-      Italian.DatePeriodParser_get_swift_day_or_month.on T w = int (-1) ∧ Italian.DatePeriodParser_get_swift_year.on T w = int (-1) := by
+      searchRe T preFixItalianPrev w = true →
+      italianDomPreFix.on T w = int (-1) ∧ italianYearPreFix.on T w = int (-1) := by
   decide +kernel
 
 theorem italian_ultima_witness :
     [117, 108, 116, 105, 109, 97] ∈ wordsOf T Italian.re_DateParser__past_prefix_regex ∧
-    Italian.DatePeriodParser_get_swift_day_or_month.on T [117, 108, 116, 105, 109, 97] = int 0 ∧
-    Italian.DatePeriodParser_get_swift_year.on T [117, 108, 116, 105, 109, 97] = int (-10) := by decide +kernel
+    italianDomPreFix.on T [117, 108, 116, 105, 109, 97] = int 0 ∧
+    italianYearPreFix.on T [117, 108, 116, 105, 109, 97] = int (-10) := by decide +kernel
 
 /-! ## is_future / is_last_cardinal agree with the listed terms -/
 
